@@ -81,7 +81,7 @@ Fixpoint merge_keep_nullable {B : Type} (ops : list bool) (l r : list B) (lp rp 
       | [] => None
       | x :: l' =>
           let p := match lp with [] => false | b :: _ => b end in
-          match merge_keep_nullable ops' l' r (tl lp) rp with
+          match merge_keep_nullable ops' l' r (match lp with [] => [] | _ :: t => t end) rp with
           | Some (m, mp) => Some (x :: m, p :: mp)
           | None => None
           end
@@ -91,7 +91,7 @@ Fixpoint merge_keep_nullable {B : Type} (ops : list bool) (l r : list B) (lp rp 
       | [] => None
       | y :: r' =>
           let p := match rp with [] => false | b :: _ => b end in
-          match merge_keep_nullable ops' l r' lp (tl rp) with
+          match merge_keep_nullable ops' l r' lp (match rp with [] => [] | _ :: t => t end) with
           | Some (m, mp) => Some (y :: m, p :: mp)
           | None => None
           end
